@@ -97,6 +97,10 @@ type Obs struct {
 var sameKinds = []string{"pluck", "scan", "rows", "batches", "updates_map", "update_column"}
 var oneKinds = []string{"first", "last", "take"}
 
+// selfDecos (primary-key cases): Updates / UpdateColumns of the model value itself, after a Select /
+// Omit that names the key column or field; appended to Same
+var selfDecos = []string{"", "omit_key", "omit_key_field", "select_key", "select_key_field", "omit_key"}
+
 var names = []string{"a", "b", "ab", "c d", "x", ""}
 var nicks = []string{"n1", "n2", "a"}
 
@@ -383,6 +387,40 @@ func (e *env) run(orig Input) Obs {
 		o.Same = append(o.Same, append([]int64{}, ids...))
 		fail("unmark", db.Exec("UPDATE ts SET mark = 0").Error)
 	}
+	// the update value itself is the model (no Model call): its key is the unit, whatever Select /
+	// Omit say about the key column (they restrict the assignments, not the conditions)
+	if orig.PK != 0 && orig.PK2 == 0 {
+		for i, deco := range selfDecos {
+			tx, inline = build()
+			if len(inline) > 0 {
+				tx = tx.Where(inline[0], inline[1:]...)
+			}
+			tx = tx.Session(&gorm.Session{AllowGlobalUpdate: true})
+			switch deco {
+			case "omit_key":
+				tx = tx.Omit("id")
+			case "omit_key_field":
+				tx = tx.Omit("ID", "Name")
+			case "select_key":
+				tx = tx.Select("id", "mark")
+			case "select_key_field":
+				tx = tx.Select("ID", "Mark")
+			}
+			var value interface{} = &whr.T{ID: orig.PK, Mark: 1}
+			if orig.PKAge != 0 {
+				value = &TC{ID: orig.PK, Age: orig.PKAge, Mark: 1}
+			}
+			if i%2 == 0 {
+				fail("updates_self_"+deco, tx.Updates(value).Error)
+			} else {
+				fail("update_columns_self_"+deco, tx.UpdateColumns(value).Error)
+			}
+			var ids []int64
+			fail("marked", db.Raw("SELECT id FROM ts WHERE mark = 1 ORDER BY id").Scan(&ids).Error)
+			o.Same = append(o.Same, append([]int64{}, ids...))
+			fail("unmark", db.Exec("UPDATE ts SET mark = 0").Error)
+		}
+	}
 	// Delete inside a transaction that is rolled back
 	o.Delete = []int64{}
 	t := db.Begin()
@@ -449,7 +487,58 @@ func term(orig Input, o Obs) string {
 	}
 	return lib.App("mk_case", whr.GTable(in.Atoms, o.Texts), whr.GCalls(in.Chain, byID), lib.List(rows),
 		lib.Str(o.WhereSQL), lib.ZList(o.Find), lib.Z(o.Count), lib.ZList(o.Update), lib.ZList(o.Delete),
-		zlists(o.Same), zlists(o.One), lib.Z(int64(len(o.Errs))))
+		zlists(o.Same), zlists(o.One), lib.Z(int64(len(o.Errs))), whr.GArgsOfCalls(in.Chain, byID), keyRuns(orig))
+}
+
+// keyRuns: the model values that carry the primary-key unit to the update / delete finishers of a
+// primary-key case, as C09_Keys reads them (per record one flag per key field: true = zero)
+func keyRuns(in Input) string {
+	if in.PK == 0 {
+		return "[]"
+	}
+	run := func(del bool, vals ...string) string { return lib.Pair(lib.Bool(del), lib.List(vals)) }
+	rec := "[false]"
+	if in.PKAge != 0 && in.PK2 == 0 {
+		rec = "[false; false]"
+	}
+	zrec := strings.ReplaceAll(rec, "false", "true")
+	val := lib.App("VStruct", rec)
+	if in.PK2 != 0 {
+		val = lib.App("VSlice", "[[false]; [false]]")
+	}
+	runs := []string{run(false, val)} // Model(value).Update / Updates(map) / UpdateColumn
+	if in.DelVia == "model" && in.PK2 == 0 {
+		runs = append(runs, run(true, lib.App("VStruct", zrec), val)) // Model(value).Delete(&T{})
+	} else {
+		runs = append(runs, run(true, val))
+	}
+	if in.PK2 == 0 {
+		// Updates(&value) / UpdateColumns(&value): the columns of T / TC in schema order with what the
+		// Select / Omit of the run says about each
+		for _, deco := range selfDecos {
+			sel := map[string]string{}
+			switch deco {
+			case "omit_key":
+				sel["id"] = "(Some false)"
+			case "omit_key_field":
+				sel["id"], sel["name"] = "(Some false)", "(Some false)"
+			case "select_key", "select_key_field":
+				sel["id"], sel["mark"] = "(Some true)", "(Some true)"
+			}
+			cols := []string{}
+			for _, c := range []string{"id", "age", "name", "nick", "mark"} {
+				pk := c == "id" || c == "age" && in.PKAge != 0
+				zero := !(pk || c == "mark")
+				st := sel[c]
+				if st == "" {
+					st = "None"
+				}
+				cols = append(cols, lib.App("mk_col", lib.Bool(pk), lib.Bool(zero), st))
+			}
+			runs = append(runs, run(false, lib.App("VSelf", lib.List(cols))))
+		}
+	}
+	return lib.List(runs)
 }
 
 func zlists(l [][]int64) string {
@@ -566,6 +655,14 @@ func main() {
 		g := whr.NewGen(r, atoms)
 		for _, ch := range g.NegationChains() {
 			add("negation", Input{Rows: genRows(r), Atoms: atoms, Chain: ch})
+		}
+	}
+	// key-form stream: the primary key as a condition unit in every Go value that carries it
+	for round := 0; round < rounds; round++ {
+		atoms := whr.WithKeyAtoms(r, whr.GenAtoms(r, names, nicks), 8)
+		g := whr.NewGen(r, atoms)
+		for _, ch := range g.KeyFormChains() {
+			add("keyform", Input{Rows: genRows(r), Atoms: atoms, Chain: ch})
 		}
 	}
 	// the known shape: Not over a map whose value is an empty slice
